@@ -7,7 +7,8 @@
   swapif   : every two-armed `if c: A else: B` (not an elif chain) rewritten as `if not c: B else: A`; same expectation
   commute  : operands of `==`, `!=`, `<`/`>` (mirrored), `*`, `^`, `&`, `|` swapped everywhere (behaviour-preserving for numbers, arrays,
              sets and list repetition); a check may answer exit 2 but never exit 1
-usage: tools/falsealarm.py [reformat|shift|rename|swapif|commute]"""
+  enumerate: every `for x in S:` with a plain name target rewritten as `for _k7, x in enumerate(S):`; a check may answer exit 2 but never exit 1
+usage: tools/falsealarm.py [reformat|shift|rename|swapif|commute|enumerate]"""
 import ast, os, shutil, subprocess, sys, tempfile
 mode = sys.argv[1] if len(sys.argv) > 1 else "reformat"
 
@@ -22,6 +23,19 @@ def _own_nodes(fn):
             if isinstance(c, (ast.FunctionDef, ast.AsyncFunctionDef, ast.Lambda, ast.ClassDef)):
                 continue
             todo.append(c)
+
+
+def enumerate_loops(src):
+    tree = ast.parse(src)
+
+    class T(ast.NodeTransformer):
+        def visit_For(self, node):
+            self.generic_visit(node)
+            if isinstance(node.target, ast.Name) and not (isinstance(node.iter, ast.Call) and isinstance(node.iter.func, ast.Name) and node.iter.func.id in ("enumerate", "zip")):
+                node.target = ast.Tuple(elts=[ast.Name(id="_k7", ctx=ast.Store()), node.target], ctx=ast.Store())
+                node.iter = ast.Call(func=ast.Name(id="enumerate", ctx=ast.Load()), args=[node.iter], keywords=[])
+            return node
+    return ast.unparse(ast.fix_missing_locations(T().visit(tree))) + "\n"
 
 
 def rename_locals(src):
@@ -103,6 +117,8 @@ try:
                 new = swap_ifs(src)
             elif mode == "commute":
                 new = commute(src)
+            elif mode == "enumerate":
+                new = enumerate_loops(src)
             else:
                 out = ["# moved\n"] * 3 + ["\n"] * 7
                 for line in src.splitlines(keepends=True):
